@@ -1185,6 +1185,639 @@ def probe():
 # }}}
 
 
+# {{{ streams: adversarial extra arguments (keys that confuse different argument combinations)
+
+ADV_NAMES = ["k", "l", "scale", "a", "b"]
+# classes of ==-equal numbers: for Python (1,) == (1.0,) == (True,), so these are EQUAL extra
+# arguments and the stock key shares them; a history holds one representative of each class
+ADV_NUM = [(1, 1.0, True), (0, 0.0, False), (2, 2.0), (7,), (-1, -1.0)]
+
+
+# how often a category of `arg_family` has its turn in the histories
+ADV_WEIGHT = {"pair": 3, "splice": 2, "order": 2, "nest": 2, "perm": 2, "types": 2}
+
+
+def enc_arg(v):
+    """argument value -> JSON (tuples become lists, all the way down)"""
+    return [enc_arg(x) for x in v] if isinstance(v, (tuple, list)) else v
+
+
+def dec_arg(v):
+    """JSON -> argument value: every list is a tuple (no unhashable arguments are generated)"""
+    return tuple(dec_arg(x) for x in v) if isinstance(v, (tuple, list)) else v
+
+
+def load_adv(calls):
+    return [(sx_to_expr(loads(sx)), dec_arg(a), {k: dec_arg(v) for k, v in kw.items()})
+            for sx, a, kw in calls]
+
+
+def arg_tag(args, kwargs):
+    """an unambiguous spelling of one combination of extra arguments (types included)"""
+    return repr((args, tuple(sorted(kwargs.items()))))
+
+
+def adv_values(rng, mixed=False):
+    """The argument values of one history / key pair: numbers (one representative per ==-class
+    unless `mixed`), their str / repr spellings, strings that are also keyword names, None, the
+    empty string, the empty tuple, pairs that look like keyword items, a nested pair."""
+    nums = [rng.choice(c) for c in ADV_NUM]
+    if mixed:
+        nums += [rng.choice(c) for c in ADV_NUM[:3]]
+    name = rng.choice(ADV_NAMES)
+    return nums + nums[:3] + [str(nums[0]), repr(nums[2]), str(nums[3]), name, "", None, (),
+                             (name, nums[3]), (nums[0], nums[2]), (nums[0],)]
+
+
+def arg_family(rng, vals, pos_ok=True, kw_ok=True, cats=None):
+    """Combinations of extra arguments built to collide under sloppy keys: all are variants of ONE
+    call `m(e, *pos, **dict(items))`, which comes first.  Each is [args, kwargs] (JSON form); `cats`
+    (if given) receives the category of every member."""
+    pos = [rng.choice(vals) for _ in range(rng.choice([0, 1, 1, 2, 2, 3]))] if pos_ok else []
+    names = rng.sample(ADV_NAMES, rng.choice([0, 1, 1, 2, 2, 3])) if kw_ok else []
+    if not pos_ok and not names:
+        names = [rng.choice(ADV_NAMES)]
+    items = [(n, rng.choice(vals)) for n in names]
+    spare = next(n for n in ADV_NAMES if n not in names)
+    fam, seen = [], []
+    cats = [] if cats is None else cats
+
+    def add(cat, a, kw):
+        if (a and not pos_ok) or (kw and not kw_ok):
+            return
+        c = [enc_arg(list(a)), [[k, enc_arg(v)] for k, v in kw]]
+        if c not in seen:       # keyword ORDER distinguishes members (they are the same call)
+            seen.append(c)
+            fam.append([c[0], dict(map(tuple, c[1]))])
+            cats.append(cat)
+
+    def shuffled(xs):
+        xs = list(xs)
+        rng.shuffle(xs)
+        return xs
+
+    add("call", pos, items)
+    # keyword items vs positional (name, value) pairs
+    add("pair", pos + items, [])
+    for j in range(len(items)):
+        add("pair", pos + [items[j]], items[:j] + items[j + 1:])
+        add("pair", [items[j]] + pos, items[:j] + items[j + 1:])
+    add("pair", pos + sorted(items, key=lambda it: it[0]), [])
+    add("splice", pos + [x for it in items for x in it], [])     # names and values spliced in
+    add("splice", pos + [v for _n, v in items], [])              # keyword values as positionals
+    add("splice", pos + [tuple(items)], [])                      # all items as ONE argument
+    add("splice", [tuple(pos), tuple(items)], [])                # the key's own (args, items) nesting
+    if pos:
+        add("splice", pos[:-1], items + [(spare, pos[-1])])      # last positional passed by keyword
+    # the same keywords in another order: EQUAL calls (must share one entry)
+    add("order", pos, list(reversed(items)))
+    add("order", pos, shuffled(items))
+    # nested vs flat positionals
+    add("nest", [tuple(pos)], items)
+    if len(pos) >= 2:
+        add("nest", pos[:1] + [tuple(pos[1:])], items)
+        add("nest", [tuple(pos[:-1]), pos[-1]], items)
+    if pos:
+        add("nest", pos[:-1] + [(pos[-1],)], items)
+    # permuted positionals
+    add("perm", list(reversed(pos)), items)
+    add("perm", shuffled(pos), items)
+    # values spelled as other types ("1" / 1, "None" / None, "()" / ())
+    add("types", [str(v) for v in pos], items)
+    add("types", [repr(v) for v in pos], items)
+    add("types", pos, [(n, str(v)) for n, v in items])
+    # empty vs missing
+    for empty in ((), None, ""):
+        add("empty", pos + [empty], items)
+        add("empty", [empty] + pos, items)
+        add("empty", pos, items + [(spare, empty)])
+    add("drop", pos[:-1], items)
+    add("drop", pos, items[:-1])
+    add("drop", [], [])
+    # keyword names / values exchanged
+    if len(items) >= 2:
+        add("exchange", pos,
+            [(items[j][0], items[(j + 1) % len(items)][1]) for j in range(len(items))])
+    if items:
+        add("exchange", pos, [(spare, items[0][1])] + items[1:])
+        add("other", pos, [(items[0][0], rng.choice(vals))] + items[1:])
+    if pos:
+        add("other", pos[:-1] + [rng.choice(vals)], items)
+    return fam
+
+
+def deep_flat(v):
+    if isinstance(v, tuple):
+        return [x for c in v for x in deep_flat(c)]
+    return [v]
+
+
+def typed(v):
+    """value with its types (1, 1.0 and True differ)"""
+    return repr(v)
+
+
+def confusion(a1, kw1, a2, kw2):
+    """classify two DIFFERENT combinations of extra arguments by the kind of sloppy key under which
+    they would collide"""
+    def items(kw):
+        return tuple(sorted(kw.items(), key=lambda it: it[0]))
+
+    def nonempty(a):
+        return [x for x in a if x not in ((), None, "")]
+
+    if a1 == a2 and kw1 == kw2:
+        if list(kw1) != list(kw2):
+            return "same-arguments-keyword-order"
+        return "same-arguments"
+    if a1 + items(kw1) == a2 + items(kw2):
+        return "positional-pair-vs-keyword"
+    if kw1 == kw2:
+        if nonempty(a1) == nonempty(a2):
+            return "empty-vs-missing"
+        if deep_flat(a1) == deep_flat(a2):
+            return "nested-vs-flat"
+        if sorted(map(typed, a1)) == sorted(map(typed, a2)):
+            return "permuted-positionals"
+        if [str(x) for x in a1] == [str(x) for x in a2] or \
+                [str(x) for x in deep_flat(a1)] == [str(x) for x in deep_flat(a2)]:
+            return "value-types"
+    if a1 == a2:
+        if {k: v for k, v in kw1.items() if v not in ((), None, "")} == \
+                {k: v for k, v in kw2.items() if v not in ((), None, "")}:
+            return "empty-vs-missing"
+        if sorted(kw1) == sorted(kw2):
+            if sorted(map(typed, kw1.values())) == sorted(map(typed, kw2.values())):
+                return "keyword-values-exchanged"
+            if {k: str(v) for k, v in kw1.items()} == {k: str(v) for k, v in kw2.items()}:
+                return "value-types"
+            return "keyword-values"
+        if sorted(map(typed, kw1.values())) == sorted(map(typed, kw2.values())):
+            return "keyword-names"
+    if deep_flat(a1 + items(kw1)) == deep_flat(a2 + items(kw2)):
+        return "flattened-keywords"
+    if sorted(map(typed, deep_flat(a1) + [v for _k, v in items(kw1)])) == \
+            sorted(map(typed, deep_flat(a2) + [v for _k, v in items(kw2)])):
+        return "positional-vs-keyword-values"
+    if kw1 == kw2:
+        return "positional-values"
+    if a1 == a2:
+        return "keywords"
+    return "unrelated"
+
+
+# the relations `confusion` distinguishes, the most specific first
+CONFUSIONS = ["same-arguments-keyword-order", "same-arguments", "positional-pair-vs-keyword",
+              "empty-vs-missing", "nested-vs-flat", "permuted-positionals", "value-types",
+              "keyword-values-exchanged", "keyword-names", "flattened-keywords",
+              "positional-vs-keyword-values", "keyword-values", "positional-values", "keywords",
+              "unrelated"]
+
+
+def args_coherent(calls):
+    """no two combinations of the history are == but typed differently ((1,) / (True,)): those are
+    equal extra arguments for Python and for the stock key"""
+    seen = []
+    for _e, a, kw in calls:
+        for b, kv in seen:
+            if a == b and kw == kv and arg_tag(a, kw) != arg_tag(b, kv):
+                return False
+        seen.append((a, kw))
+    return True
+
+
+class ReprLeaves:
+    """leaf handlers whose answers spell out the extra arguments (types and nesting included)"""
+
+    def map_variable(self, expr, *args, **kwargs):
+        return p.Variable(f"{expr.name}|{arg_tag(args, kwargs)}")
+
+
+class ReprCollect:
+    def map_variable(self, expr, *args, **kwargs):
+        return {p.Variable(f"{expr.name}|{arg_tag(args, kwargs)}")}
+
+
+_ADV_CLASSES: dict = {}
+
+
+def adv_classes():
+    """kind -> (memoizing class, non-memoizing counterpart, methods counted for at-most-once)"""
+    if not _ADV_CLASSES:
+        import pymbolic.mapper as M
+
+        def uncached(self, expr, *args):
+            return M.IdentityMapper.map_common_subexpression(self, expr, *args)
+
+        d = _ADV_CLASSES
+        plain_id = type("API", (ReprLeaves, M.IdentityMapper), {})
+        d["identity"] = (type("ACI", (ReprLeaves, M.CachedIdentityMapper), {}), plain_id, None)
+        d["combine"] = (*pair_classes()["combine"], None)
+        d["collector"] = (type("ACCo", (ReprCollect, M.CachedCollector), {}),
+                          type("APCo", (ReprCollect, M.Collector), {}), None)
+        d["walk"] = (*pair_classes()["walk"], None)
+        d["cse-mixin"] = (type("ACse", (M.CSECachingMapperMixin, ReprLeaves, M.IdentityMapper),
+                               {"map_common_subexpression_uncached": uncached}), plain_id,
+                          {"map_common_subexpression_uncached"})
+        d["cse-mixin-cached"] = (
+            type("ACseC", (M.CSECachingMapperMixin, ReprLeaves, M.CachedIdentityMapper),
+                 {"map_common_subexpression_uncached": uncached}), plain_id, None)
+    return _ADV_CLASSES
+
+
+def adv_history(rng, g, pos_ok=True, kw_ok=True, i=0, wrap_cse=False):
+    """4-9 calls on few expressions (shared subtrees, equal-but-not-identical copies) whose extra
+    arguments alternate between a few members of one `arg_family`"""
+    cats: list = []
+    fam = arg_family(rng, adv_values(rng), pos_ok, kw_ok, cats)
+    kinds = sorted(c for c in set(cats[1:]) for _ in range(ADV_WEIGHT.get(c, 1)))
+    sub = [fam[0]]
+    if kinds:       # the call and one variant of the category whose turn it is, plus 0-2 others
+        cat = kinds[i % len(kinds)]
+        sub.append(rng.choice([f for f, c in zip(fam, cats) if c == cat]))
+    sub += rng.sample(fam, rng.choice([0, 0, 1, 2]))
+    if rng.random() < 0.2 and len(sub) > 2:
+        sub = sub[1:]
+    for _ in range(6):      # the handlers spell the arguments out at the variables
+        e0 = g.gen(rng.choice(["num", "int", "any"]), rng.randint(1, 3))
+        if any(isinstance(s, p.Variable) for s in scan.subterms(e0)):
+            break
+    else:
+        e0 = p.Sum((p.Variable("x"), p.Product((p.Variable("x"), p.Variable("y")))))
+    if wrap_cse and rng.random() < 0.7 and not isinstance(e0, p.CommonSubexpression):
+        e0 = p.CommonSubexpression(e0)
+    others = [g.gen("num", rng.randint(0, 2))]
+    calls = []
+    for _ in range(rng.randint(4, 9)):
+        k = rng.random()
+        if k < 0.5:
+            e = e0
+        elif k < 0.65:
+            e = rebuild(e0)
+        elif k < 0.8:
+            e = p.Sum((e0, rng.choice(others), rebuild(e0)))
+        elif k < 0.9:
+            e = rng.choice(scan.subterms(e0))
+        else:
+            e = rng.choice(others)
+        a, kw = rng.choice(sub)
+        calls.append([esx(e), a, dict(kw)])
+    return calls
+
+
+def shrink_adv(pl):
+    yield from shrink_calls(pl)
+    cs = pl["calls"]
+    # one keyword / one positional slot less in EVERY call (collisions need both sides)
+    for k in sorted({k for _sx, _a, kw in cs for k in kw}):
+        yield {**pl, "calls": [[sx, a, {n: v for n, v in kw.items() if n != k}]
+                               for sx, a, kw in cs]}
+    for j in range(max(len(a) for _sx, a, _kw in cs)):
+        yield {**pl, "calls": [[sx, list(a[:j]) + list(a[j + 1:]), kw] for sx, a, kw in cs]}
+    for i, (sx, a, kw) in enumerate(cs):
+        for j in range(len(a)):
+            yield {**pl, "calls": cs[:i] + [[sx, list(a[:j]) + list(a[j + 1:]), kw]] + cs[i + 1:]}
+        for k in kw:
+            yield {**pl, "calls": cs[:i] + [[sx, a, {n: v for n, v in kw.items() if n != k}]]
+                   + cs[i + 1:]}
+
+
+class ArgKeysStream(Stream):
+    """Histories on ONE memoizing instance whose calls differ (or do not differ) only in the shape
+    of the extra arguments.  Every answer must be the answer of a fresh non-memoizing counterpart
+    called with the same arguments; each distinct (expression, arguments) key is computed at most
+    once (equal keyword arguments passed in another order are the same key)."""
+    name = "argkeys"
+    has_model = False
+    KINDS = ["identity", "combine", "collector", "walk", "cse-mixin", "cse-mixin-cached"]
+    KW_OK = {"cse-mixin": False, "cse-mixin-cached": False}
+
+    def cases(self, rng, tier):
+        n = 200 if tier == "quick" else 1500
+        g = ExprGen(rng, lists=False, cse=0.15, floats=0.0)
+        for i in range(n):
+            for kind in self.KINDS:
+                calls = adv_history(rng, g, kw_ok=self.KW_OK.get(kind, True), i=i,
+                                    wrap_cse=kind.startswith("cse"))
+                yield {"pair": kind, "calls": calls}
+        reps = 8 if tier == "quick" else 40
+        i = 0
+        for ka, kk in [(True, False), (False, True), (True, True)]:
+            for bits in itertools.product([False, True], repeat=5):
+                if (bits[0] and ka) or (bits[1] and kk):
+                    continue        # the class itself uses what would be dropped
+                # inline_cache with extra arguments is the known finding: fewer histories there
+                for _r in range(max(1, reps // 3) if bits[3] else reps):
+                    i += 1
+                    calls = adv_history(rng, g, pos_ok=ka, kw_ok=kk, i=i)
+                    yield {"pair": "optimized", "ka": ka, "kk": kk, "opts": list(bits),
+                           "calls": calls}
+
+    def run_impl(self, pl):
+        return "(oracle-only)"
+
+    @staticmethod
+    def blame(calls, i, matches):
+        """(relation, j): the earlier call #j whose extra arguments the answer of call #i belongs
+        to (`matches(args, kwargs)`), classified by `confusion`; related combinations first"""
+        _e, a, kw = calls[i]
+        cands = [j for j in range(i - 1, -1, -1)
+                 if (calls[j][1], calls[j][2]) != (a, kw) and matches(calls[j][1], calls[j][2])]
+        rels = [(confusion(calls[j][1], calls[j][2], a, kw), j) for j in cands]
+        rels.sort(key=lambda r: CONFUSIONS.index(r[0]))     # stable: the latest call first
+        return rels[0] if rels else ("unclassified", None)
+
+    @staticmethod
+    def pieces(ans):
+        """the atomic pieces of an answer (variable names carry the arguments they were made with)"""
+        if isinstance(ans, tuple) and len(ans) == 4 and isinstance(ans[0], str):
+            return {repr(ans)}      # a leaf record of `ListCombine`
+        if isinstance(ans, (set, frozenset, list, tuple)):
+            return {x for c in ans for x in ArgKeysStream.pieces(c)}
+        if isinstance(ans, p.Expression):
+            return {repr(t) for t in scan.subterms(ans)
+                    if isinstance(t, (p.Variable, *CONSTS))}
+        return {repr(ans)}
+
+    def blame_answer(self, calls, i, got, ref, same, plain_f):
+        """whole answer of an earlier combination, else the earlier combination that accounts for
+        the pieces of the answer the reference does not have (a hit below the top)"""
+        e = calls[i][0]
+
+        def whole(b, kv):
+            r = outc(lambda: plain_f()(e, *b, **kv))
+            return r[0] == "ok" and same(got, r[1])
+        rel, j = self.blame(calls, i, whole)
+        if j is None:
+            odd = self.pieces(got) - self.pieces(ref)
+
+            def part(b, kv):
+                r = outc(lambda: plain_f()(e, *b, **kv))
+                return r[0] == "ok" and bool(odd) and odd <= self.pieces(r[1])
+            rel, j = self.blame(calls, i, part)
+        return rel, j
+
+    @staticmethod
+    def recomputed_blame(calls):
+        for i, (_e, a, kw) in enumerate(calls):
+            for _ej, b, kv in calls[:i]:
+                if (a, kw) == (b, kv) and list(kw) != list(kv):
+                    return "keyword-order"
+        return "same-arguments"
+
+    def oracle(self, pl):
+        calls = load_adv(pl["calls"])
+        if not coherent([e for e, _a, _k in calls]) or not args_coherent(calls):
+            return None
+        if pl["pair"] == "optimized":
+            return self.oracle_optimized(pl, calls)
+        kind = pl["pair"]
+        cached_cls, plain_cls, once = adv_classes()[kind]
+        m = counted(cached_cls, once)()
+        cum_c, cum_p = set(), set()
+        from collections import Counter
+        visits: Counter = Counter()
+        for i, (e, a, kw) in enumerate(calls):
+            fresh = plain_cls()
+            if kind == "walk":
+                m.__dict__["log"] = []
+                m.skip = fresh.skip = ()
+            got = outc(lambda: m(e, *a, **kw))
+            ref = outc(lambda: fresh(e, *a, **kw))
+            what = f"[{kind}] call #{i} {esx(e)[:100]} args={a!r} kwargs={kw!r}"
+            if got[0] != ref[0] or (got[0] == "err" and got[1] != ref[1]):
+                return Failure("extra-args-outcome-differs",
+                               f"{what}: memoizing instance {got!r}, fresh plain mapper {ref!r}", pl)
+            if got[0] != "ok":
+                continue
+            same = top_eq(e, got[1], ref[1]) and (kind != "combine" or typed_eq(got[1], ref[1]))
+            if not same:
+                rel, j = self.blame_answer(
+                    calls, i, got[1], ref[1],
+                    lambda x, y: top_eq(e, x, y) and (kind != "combine" or typed_eq(x, y)),
+                    plain_cls)
+                return Failure(f"extra-args-shared:{rel}",
+                               f"{what}: memoizing instance {got[1]!r}, fresh plain mapper "
+                               f"{ref[1]!r}" + ("" if j is None else
+                                                f" (the answer for the extra arguments of call #{j}: "
+                                                f"args={calls[j][1]!r} kwargs={calls[j][2]!r})"), pl)
+            if kind == "walk":
+                lc, lp = m.__dict__.get("log", []), fresh.__dict__.get("log", [])
+                cum_c |= {ev[1:] for ev in lc if ev[0] == "v"}
+                cum_p |= {ev[1:] for ev in lp if ev[0] == "v"}
+                if not is_subsequence(lc, lp) or cum_c != cum_p:
+                    # nodes the plain walk visits with these arguments and the memoizing one does
+                    # not: visited earlier under which other combination?
+                    missed = {ev[1] for ev in cum_p - cum_c}
+                    rel, j = self.blame(calls, i, lambda b, kv: any(
+                        ev[1] in missed and (ev[2], dict(ev[3])) == (b, kv) for ev in cum_c))
+                    return Failure(f"extra-args-shared:{rel}",
+                                   f"{what}: the memoizing walk visited {len(cum_c)} (node, "
+                                   f"arguments) combinations so far, plain walks {len(cum_p)}", pl)
+                visits.update(ev for ev in lc if ev[0] == "v")
+                if any(v > 1 for v in visits.values()):
+                    return Failure(f"extra-args-recomputed:{self.recomputed_blame(calls)}",
+                                   f"{what}: a node was visited {max(visits.values())} times with "
+                                   f"equal extra arguments", pl)
+        rc = recomputed(m)
+        if rc:
+            return Failure(f"extra-args-recomputed:{self.recomputed_blame(calls)}",
+                           f"[{kind}] handler ran more than once for one (expression, arguments) "
+                           f"key on one instance: {rc[:3]!r}", pl)
+        return None
+
+    def oracle_optimized(self, pl, calls):
+        ka, kk, bits = pl["ka"], pl["kk"], tuple(pl["opts"])
+        if not precondition_ok(ka, kk, bits, calls) or \
+                any((a and not ka) or (kw and not kk) for _e, a, kw in calls):
+            return None
+        opts = dict(zip(OPT_NAMES, bits))
+        m = counted(optimized(ka, kk, bits))()
+        _unopt, plain_cls = C.OPT_CLASSES[(ka, kk)]
+        on = "+".join(n for n, b in opts.items() if b) or "none"
+        extra = any(a or k for _e, a, k in calls)
+        for i, (e, a, kw) in enumerate(calls):
+            got = outc(lambda: m(e, *a, **kw))
+            ref = outc(lambda: plain_cls()(e, *a, **kw))
+            if got == ref or (got[0] == ref[0] == "ok" and top_eq(e, got[1], ref[1])):
+                continue
+            detail = (f"[{on}] class Opt{int(ka)}{int(kk)} call #{i} {esx(e)[:100]} args={a!r} "
+                      f"kwargs={kw!r}: optimized instance {got!r}, plain mapper {ref!r}")
+            if opts["inline_cache"] and extra and got[0] == "ok":
+                return Failure("optimizer-inline-cache-ignores-args", detail, pl)
+            if got[0] != "ok" or ref[0] != "ok":
+                return Failure(f"optimizer-extra-args-outcome-differs:{on}", detail, pl)
+            rel, j = self.blame_answer(calls, i, got[1], ref[1],
+                                       lambda x, y: top_eq(e, x, y), plain_cls)
+            return Failure(f"optimizer-extra-args-shared:{rel}",
+                           detail + ("" if j is None else f" (the answer for the extra arguments "
+                                     f"of call #{j}: args={calls[j][1]!r} kwargs={calls[j][2]!r})"),
+                           pl)
+        rc = recomputed(m)
+        if rc:
+            detail = f"[{on}] handler ran more than once for one key: {rc[:2]!r}"
+            if opts["inline_rec"] and not opts["inline_cache"]:
+                return Failure("optimizer-inline-rec-disables-cache", detail, pl)
+            if opts["inline_cache"] and (ka or kk):
+                return Failure("optimizer-inline-cache-key-mismatch", detail, pl)
+            return Failure(f"optimizer-extra-args-recomputed:{self.recomputed_blame(calls)}",
+                           detail, pl)
+        return None
+
+    def shrink(self, pl):
+        return shrink_adv(pl)
+
+    def nontrivial_key(self, pl, model, impl):
+        return json_key(pl)
+
+    def stats(self, pl, mo, io, acc):
+        acc[pl["pair"]] = acc.get(pl["pair"], 0) + 1
+        acc["calls"] = acc.get("calls", 0) + len(pl["calls"])
+        calls = load_adv(pl["calls"])
+        combos = []
+        for _e, a, kw in calls:
+            if not any((a, kw) == c and list(kw) == list(c[1]) for c in combos):
+                combos.append((a, kw))
+        for x in range(len(combos)):
+            for y in range(x):
+                rel = confusion(*combos[y], *combos[x])
+                acc.setdefault("confusable_pairs", {})
+                acc["confusable_pairs"][rel] = acc["confusable_pairs"].get(rel, 0) + 1
+        if not coherent([e for e, _a, _k in calls]) or not args_coherent(calls):
+            acc["skipped_incoherent"] = acc.get("skipped_incoherent", 0) + 1
+
+
+def norm_adv(pl):
+    """payload whose argument values are decoded (nested tuples), in the layout `load_calls` reads"""
+    return {**pl, "calls": [[sx, dec_arg(a), {k: dec_arg(v) for k, v in kw.items()}]
+                            for sx, a, kw in pl["calls"]]}
+
+
+# every ordered pair of these (on one expression) goes through `keyeq-args`
+ADV_FIXED = [
+    ([], {}), ([[]], {}), ([None], {}), ([""], {}), ([], {"k": None}),
+    ([["scale", 2]], {}), ([], {"scale": 2}), (["scale", 2], {}), ([[["scale", 2]]], {}),
+    ([1, ["k", 7]], {}), ([1], {"k": 7}), ([1, "k", 7], {}), ([], {"k": 7}),
+    ([[1, 2]], {}), ([1, 2], {}), ([2, 1], {}), ([1, [2]], {}), ([[1], 2], {}),
+    ([1], {}), ([1.0], {}), ([True], {}), (["1"], {}), ([[1]], {}),
+    ([], {"a": 1, "b": 2}), ([], {"b": 2, "a": 1}), ([["a", 1], ["b", 2]], {}),
+    ([["a", 1]], {"b": 2}), ([], {"a": 2, "b": 1}), ([[["a", 1], ["b", 2]]], {}),
+    ([], {"k": 1}), ([], {"k": True}), ([], {"k": "1"}), ([], {"l": 1}), ([], {"k": [1]}),
+]
+
+
+class KeyEqArgsStream(KeyEqStream):
+    """`KeyV.eq` / `KeyV.cseEq` (PV/Model/MemoArgs.lean: argument values are constants and nested
+    tuples) vs the real key tuples, on pairs of calls that differ in the SHAPE of the extra
+    arguments; oracle: two calls get one key iff type, expression, positional tuple and keyword
+    mapping are equal."""
+    name = "keyeq-args"
+
+    def cases(self, rng, tier):
+        n = 1500 if tier == "quick" else 20000
+        g = ExprGen(rng, lists=False, floats=0.1, cse=0.15)
+        i = 0
+        while i < n:
+            fam = arg_family(rng, adv_values(rng, mixed=True))
+            e1 = g.gen(rng.choice(["num", "int", "bool", "any"]), rng.randint(0, 3))
+            for _ in range(8):
+                i += 1
+                k = rng.random()
+                e2 = (e1 if k < 0.5 else rebuild(e1) if k < 0.7 else self.retype(rng, e1)
+                      if k < 0.85 else g.gen(rng.choice(["num", "any"]), 1))
+                c1 = fam[0] if rng.random() < 0.5 else rng.choice(fam)
+                c2 = rng.choice(fam)
+                if rng.random() < 0.25:     # the same call, keywords in another order
+                    its = list(c1[1].items())
+                    rng.shuffle(its)
+                    c2 = [c1[0], dict(its)]
+                yield {"k1": [esx(e1), c1[0], dict(c1[1])], "k2": [esx(e2), c2[0], dict(c2[1])]}
+        for e in (p.Variable("x"), p.CommonSubexpression(p.Variable("x")), 4):
+            for (a1, kw1), (a2, kw2) in itertools.product(ADV_FIXED, repeat=2):
+                yield {"k1": [esx(e), a1, dict(kw1)], "k2": [esx(e), a2, dict(kw2)]}
+
+    def request(self, pl):
+        ks = [key_req(sx, dec_arg(a), {k: dec_arg(v) for k, v in kw.items()})
+              for sx, a, kw in (pl["k1"], pl["k2"])]
+        return f"(memo-keyeq-v {ks[0]} {ks[1]})"
+
+    def _keys(self, pl):
+        return KeyEqStream._keys(self, {
+            k: [pl[k][0], dec_arg(pl[k][1]), {n: dec_arg(v) for n, v in pl[k][2].items()}]
+            for k in ("k1", "k2")})
+
+    def oracle(self, pl):
+        f = KeyEqStream.oracle(self, pl)
+        if f is None:
+            return None
+        (_k1, _c1, _e1, a1, kw1), (_k2, _c2, _e2, a2, kw2) = self._keys(pl)
+        if f.key == "key-ignores-arguments":
+            f.key = f"key-confuses-arguments:{confusion(a1, kw1, a2, kw2)}"
+        if f.key == "key-separates-equal-calls" and arg_tag(a1, kw1) != arg_tag(a2, kw2):
+            # (1,) == (True,): a key that told such arguments apart would still be a correct key
+            return None
+        return f
+
+    def shrink(self, pl):
+        for k in ("k1", "k2"):
+            sx, a, kw = pl[k]
+            for j in range(len(a)):
+                yield {**pl, k: [sx, a[:j] + a[j + 1:], kw]}
+            for n in kw:
+                yield {**pl, k: [sx, a, {m: v for m, v in kw.items() if m != n}]}
+        for s in sx_shrinks(loads(pl["k1"][0])):
+            if pl["k1"][0] == pl["k2"][0]:
+                yield {"k1": [dumps(s), *pl["k1"][1:]], "k2": [dumps(s), *pl["k2"][1:]]}
+
+    def nontrivial_key(self, pl, model, impl):
+        return json_key(pl)
+
+
+class MemoTraceArgsStream(MemoTraceStream):
+    """hit / miss traces of ONE instrumented CachedDependencyMapper (memo table) / DependencyMapper
+    (CSE mix-in dictionary) on histories with adversarial extra arguments vs `runHistC` on the
+    history renamed by `internHist` (every combination of extra arguments is the index of the first
+    combination that `ArgKeyV.pyEq` calls equal)"""
+    name = "memo-trace-args"
+
+    def cases(self, rng, tier):
+        n = 500 if tier == "quick" else 4000
+        g = ExprGen(rng, lists=False, cse=0.2, floats=0.0)
+        g0 = ExprGen(rng, lists=False, cse=0.0, floats=0.0)
+        for i in range(n):
+            # the dependency mappers' handler of common subexpressions (the CSE mix-in) takes no
+            # keyword arguments: keyword arguments only on trees without such nodes
+            layer, kw = [("memo", True), ("memo", True), ("cse", False), ("memo", False)][i % 4]
+            calls = adv_history(rng, g0 if kw else g, kw_ok=kw, i=i, wrap_cse=(layer == "cse"))
+            yield {"flags": FLAGSETS[i % len(FLAGSETS)], "layer": layer, "calls": calls}
+
+    def request(self, pl):
+        ks = " ".join(key_req(sx, a, kw) for sx, a, kw in norm_adv(pl)["calls"])
+        return f"(memo-deps-v {flags_req(pl['flags'])} {pl['layer']} ({ks}))"
+
+    def run_impl(self, pl):
+        return MemoTraceStream.run_impl(self, norm_adv(pl))
+
+    def oracle(self, pl):
+        f = MemoTraceStream.oracle(self, norm_adv(pl))
+        if f is not None:
+            f.payload = pl
+        return f
+
+    def shrink(self, pl):
+        return shrink_adv(pl)
+
+    def nontrivial_key(self, pl, model, impl):
+        return json_key(pl) if "(h " in impl else None
+
+
+def json_key(pl):
+    import json
+    return json.dumps(pl, default=str)
+
+# }}}
+
+
 def extract(ctx=None):
     """T-gen: the cache protocol of every caching mapper class and the optimizer's rewrites,
     regenerated from the live source of the tree under test (lean/PV/Generated/Caching.lean)"""
@@ -1249,3 +1882,8 @@ PROP = Prop(
         "constants themselves and different extra arguments must be kept apart",
     ],
 )
+
+
+# adversarial extra arguments (keys with argument VALUES: PV/Model/MemoArgs.lean, PV/Properties/C05Args.lean)
+PROP.lean_targets.append("PV.Properties.C05Args")
+PROP.streams.extend([KeyEqArgsStream(), MemoTraceArgsStream(), ArgKeysStream()])
